@@ -197,8 +197,11 @@ def r3_subsample(ctx):
             pc = path_condition(cfg, node.id, keep=lambda t, n: t in opt_atoms)
             all_none = pc[0] == opt_atoms and pc[1] == frozenset({(True, True, True)})
             if isinstance(v, ast.Name) and v.id == obj:
+                pc_all = path_condition(cfg, node.id)
                 if all_none:
                     identity = True
+                elif len(pc_all[0]) == 1 and pc_all[0][0] in part_lists and pc_all[1] == frozenset({(False,)}):
+                    identity = True   # reached exactly when the list of selected parts is empty, i.e. no option appended anything
                 else:
                     bad.append(f"`return {obj}` is reached under {show_condition(pc)}, not only when head, tail and sample are all None")
             elif isinstance(v, ast.IfExp):
